@@ -7,6 +7,7 @@ import importlib
 import itertools
 
 from symx.core import AND, OR, NOT, IMPLIES, ITE, IFF, SNum, ssum
+from symx.stubs import namer
 
 PROPERTY = "C08"
 FILES = ["solvor/flow.py", "solvor/types.py"]
@@ -14,7 +15,7 @@ FUNCTIONS = ["solvor.flow.max_flow"]
 BOUNDS = {
     "quick": "every topology on 4 nodes (source 0, sink 3) with <=4 arcs out of the 12 possible (incl. arcs into the source / "
              "out of the sink, anti-parallel pairs), lexicographic adjacency order, plus a 40 VERIF_SEED-sampled 4-node multigraphs (repeated arcs in random order) and a named family of 18 larger/odd "
-             "topologies (6-7 nodes, parallel arcs, self loop, string labels, reversed adjacency order); every capacity an "
+             "topologies (6-7 nodes, parallel arcs, self loop, string labels and unorderable hashable labels, reversed adjacency order); every capacity an "
              "unbounded non-negative Int (zero included)",
     "thorough": "every topology on 4 nodes with <=6 arcs, the complete digraph on 4 nodes, named family, and VERIF_SEED-sampled "
                 "5-6 node sparse topologies with shuffled adjacency order (structure sampled, capacities for-all)",
@@ -50,11 +51,12 @@ NAMED = {
     "sink_first_order": (5, [(0, 3), (0, 1), (1, 2), (3, 2), (2, 4), (1, 4), (3, 1)], 0, 4),
 }
 STRING_LABELS = {"cancel6", "parallel"}
+OPAQUE_LABELS = {"parallel_split4", "sink_first_order", "antipar_both6"}  # hashable labels without an ordering
 
 
 def h_maxflow(s, n, arcs, source, sink, labels=False):
     mod = importlib.import_module("solvor.flow")
-    name = (lambda u: "n%d" % u) if labels else (lambda u: u)
+    name = namer(labels)
     caps = [s.int("cap%d" % k, 0, None) for k in range(len(arcs))]
     graph = {}
     for k, (u, v) in enumerate(arcs):
@@ -117,7 +119,7 @@ def items(tier, rng):
     max_arcs = 4 if tier == "quick" else 6
     for nm, (n, arcs, so, si) in NAMED.items():
         it = {"name": nm, "harness": "h_maxflow", "params": {"n": n, "arcs": arcs, "source": so, "sink": si,
-                                                               "labels": nm in STRING_LABELS}}
+                                                               "labels": "str" if nm in STRING_LABELS else ("opaque" if nm in OPAQUE_LABELS else False)}}
         if n >= 6:
             it["split"] = 5
         out.append(it)
@@ -127,7 +129,8 @@ def items(tier, rng):
         base = rng.sample(cand, rng.randint(2, 4))
         arcs = base + [rng.choice(base) for _ in range(rng.randint(1, 2))]
         rng.shuffle(arcs)
-        out.append({"name": "multi4_%d" % i, "harness": "h_maxflow", "params": {"n": 4, "arcs": arcs, "source": 0, "sink": 3}})
+        out.append({"name": "multi4_%d" % i, "harness": "h_maxflow", "params": {"n": 4, "arcs": arcs, "source": 0, "sink": 3,
+                                                                                 "labels": (False, "opaque", "str")[i % 3]}})
     for arcs in _topologies(4, max_arcs):
         # arcs that cannot matter: keep all (the code reads them all); skip only graphs without any arc out of the source
         out.append({"name": "t4_%s" % "".join("%d%d" % a for a in arcs), "harness": "h_maxflow",
